@@ -69,7 +69,7 @@ mut('C10', 'reorder-inverse-descriptors', R, "            self.pattern_descripto
 mut('C10', 'concat-transposed-align', R, "                _, new_order = np.where(auth_order[:, None] == other_order)", "                new_order, _ = np.where(auth_order[:, None] == other_order)")
 mut('C10', 'append-no-reindex', 'rsatoolbox/util/descriptor_utils.py', "        descriptor[k] = list(v) + list(desc_new[k])", "        descriptor[k] = list(desc_new[k]) + list(v)")
 mut('C10', 'n-from-vector-floor', 'rsatoolbox/util/rdm_utils.py', "    return max(int(np.ceil(np.sqrt(x.shape[1] * 2))), 1)", "    return max(int(np.floor(np.sqrt(x.shape[1] * 2))), 1)")
-mut('C10', 'sort_by-unstable', R, "                self.reorder(np.argsort(descriptor, kind='stable'))", "                self.reorder(np.argsort(descriptor)[::-1][::-1] if len(set(descriptor)) == len(descriptor) else np.argsort(descriptor, kind='stable')[::-1])")
+mut('C10', 'sort_by-unstable', R, "                self.reorder(np.argsort(descriptor, kind='stable'))", "                self.reorder(np.argsort(descriptor))")
 # ---- C11
 mut('C11', 'sort-measurements-only', D, "        order = np.argsort(desc, kind='stable')\n        self.measurements = self.measurements[order]\n        self.obs_descriptors = subset_descriptor(self.obs_descriptors, order)\n\n    def get_measurements(self):",
     "        order = np.argsort(desc, kind='stable')\n        self.measurements = self.measurements[order]\n        self.obs_descriptors = subset_descriptor(self.obs_descriptors, np.sort(order))\n\n    def get_measurements(self):")
